@@ -21,7 +21,7 @@ fn failing(prop: Prop, cand: &AnyScn, class: &str) -> Option<Violation> {
     let (tx, rx) = std::sync::mpsc::channel();
     let c = cand.clone();
     let cl = class.to_string();
-    std::thread::spawn(move || {
+    let _ = std::thread::Builder::new().stack_size(crate::util::BIG_STACK).spawn(move || {
         let r = c.exec(prop);
         let _ = tx.send(r.violations.into_iter().find(|v| v.class == cl));
     });
@@ -165,10 +165,14 @@ fn freeze(prop: Prop, s: &Scenario) -> Option<Scenario> {
     if s.ops.iter().all(|o| o.policy.kind == Kind::Script) {
         return None;
     }
-    crate::entropy::trace_enable(true);
-    let _ = AnyScn::Array(s.clone()).exec(prop);
-    let items = crate::entropy::trace_take();
-    crate::entropy::trace_enable(false);
+    let sc = AnyScn::Array(s.clone());
+    let items = crate::util::with_big_stack(|| {
+        crate::entropy::trace_enable(true);
+        let _ = sc.exec(prop);
+        let items = crate::entropy::trace_take();
+        crate::entropy::trace_enable(false);
+        items
+    });
     let mut t = s.clone();
     let mut cur: Option<usize> = None;
     let mut done = vec![false; s.ops.len()];
